@@ -779,10 +779,17 @@ PROFILES = {
 }
 
 
+SEED_SPECS = [['c10_examples.stone'], ['c10_alias_member.stone']]
+
+
 def build_generated(ck, n_by_profile):
     """[(profile, specs, Built)] for generated specs the real toolchain can compile, generate and import"""
     from harness import specgen
+    import os
     out = []
+    for group in SEED_SPECS:
+        specs = [(p, open(os.path.join(core.VERIF, 'harness', 'specs', p), encoding='utf-8').read()) for p in group]
+        out.append(('seed', specs, pygen.build_python(specs)))
     for prof, n in n_by_profile:
         for _ in range(n):
             model = specgen.gen_model(ck.rng, PROFILES[prof])
@@ -897,17 +904,51 @@ def _b64_ok(s):
         return False
 
 
+def unwrap_alias_only(t):
+    from stone.ir import Alias
+    while isinstance(t, Alias):
+        t = t.data_type
+    return t
+
+
 def first_bad_leaf(t, doc):
     """Type-directed walk of an example document (reference semantics of the wire format, written here):
     the diagnostic class of the first leaf that strict decoding must refuse, else None."""
-    from stone.ir import Alias, Bytes, List, Map, Nullable, String, Struct, Timestamp, Union
+    from stone.ir import (Alias, Boolean, Bytes, Float32, Float64, Int32, Int64, List, Map, Nullable, String, Struct,
+                          Timestamp, UInt32, UInt64, Union)
     if isinstance(t, Alias):
         return first_bad_leaf(t.data_type, doc)
     if isinstance(t, Nullable):
         return None if doc is None else first_bad_leaf(t.data_type, doc)
+    if doc is None:
+        return 'null-for-non-nullable'
+    if isinstance(t, Boolean):
+        return None if isinstance(doc, bool) else 'wrong-json-kind'
+    if isinstance(t, (Int32, UInt32, Int64, UInt64)):
+        if isinstance(doc, bool) or not isinstance(doc, int):
+            return None if isinstance(doc, bool) else 'wrong-json-kind'
+        lo = t.minimum if t.min_value is None else t.min_value
+        hi = t.maximum if t.max_value is None else t.max_value
+        return None if lo <= doc <= hi else 'integer-out-of-range'
+    if isinstance(t, (Float32, Float64)):
+        if isinstance(doc, bool) or not isinstance(doc, (int, float)):
+            return None if isinstance(doc, bool) else 'wrong-json-kind'
+        try:
+            x = float(doc)
+        except OverflowError:
+            return 'float-out-of-range'
+        lo = t.minimum if t.min_value is None else t.min_value
+        hi = t.maximum if t.max_value is None else t.max_value
+        if x != x or x in (float('inf'), float('-inf')) or (lo is not None and x < lo) or (hi is not None and x > hi):
+            return 'float-out-of-range'
+        return None
     if isinstance(t, Bytes):
         return None if isinstance(doc, str) and _b64_ok(doc) else 'bytes-not-base64'
     if isinstance(t, String):
+        if not isinstance(doc, str):
+            return 'wrong-json-kind'
+        if (t.max_length is not None and len(doc) > t.max_length) or (t.min_length is not None and len(doc) < t.min_length):
+            return 'string-length'
         if isinstance(doc, str) and t.pattern:
             try:
                 if not re.match(r'\A(?:' + t.pattern + r')\Z', doc):
@@ -922,6 +963,10 @@ def first_bad_leaf(t, doc):
         except (ValueError, TypeError):
             return 'timestamp-unparsable'
     if isinstance(t, List):
+        if not isinstance(doc, list):
+            return 'wrong-json-kind'
+        if (t.max_items is not None and len(doc) > t.max_items) or (t.min_items is not None and len(doc) < t.min_items):
+            return 'list-length'
         if isinstance(doc, list):
             for x in doc:
                 r = first_bad_leaf(t.data_type, x)
@@ -929,6 +974,8 @@ def first_bad_leaf(t, doc):
                     return r
         return None
     if isinstance(t, Map):
+        if not isinstance(doc, dict):
+            return 'wrong-json-kind'
         if isinstance(doc, dict):
             for k, x in doc.items():
                 r = first_bad_leaf(t.key_data_type, k) or first_bad_leaf(t.value_data_type, x)
@@ -943,11 +990,18 @@ def first_bad_leaf(t, doc):
                 if f.name == tag:
                     return first_bad_leaf(f.data_type, {k: v for k, v in doc.items() if k != '.tag'})
             return None
+        names = [f.name for f in st.all_fields]
+        for k in doc:
+            if k not in names and not k.startswith('.tag'):
+                return 'unknown-key'
         for f in st.all_fields:
             if f.name in doc:
                 r = first_bad_leaf(f.data_type, doc[f.name])
                 if r:
                     return r
+            elif not f.has_default and not isinstance(f.data_type, Nullable) and \
+                    not (isinstance(unwrap_alias_only(f.data_type), Nullable)):
+                return 'required-field-absent'
         return None
     if isinstance(t, Union) and isinstance(doc, dict):
         tag = doc.get('.tag')
@@ -958,6 +1012,10 @@ def first_bad_leaf(t, doc):
             if f.name == tag:
                 inner = unwrap_ir(f.data_type)
                 if isinstance(inner, Struct) and not inner.has_enumerated_subtypes():
+                    direct = f.data_type.data_type if isinstance(f.data_type, Nullable) else f.data_type
+                    if tag in doc and tag not in [x.name for x in inner.all_fields]:
+                        # the wire format flattens a struct member next to ".tag"; the document nests it under the tag
+                        return 'struct-member-nested' if isinstance(direct, Struct) else 'struct-member-through-alias-nested'
                     return first_bad_leaf(inner, {k: v for k, v in doc.items() if k != '.tag'})
                 if tag in doc:
                     return first_bad_leaf(f.data_type, doc[tag])
